@@ -365,7 +365,10 @@ def run_check(pid, mod, tier, seed):
 
     for br in bounded_results:
         for fl in br.get("failures", [])[:3]:
-            kf = next((k for k in known if k.get("obligation") == br["name"] and k.get("witness_input") == fl.get("input")), None)
+            # a failure is a KNOWN finding when the file lists it: by its exact input, or by the id of the finding whose
+            # region the harness itself delimits (the harness tags a failure only when it lies inside that region)
+            kf = next((k for k in known if k.get("obligation") == br["name"] and
+                       (k.get("witness_input") == fl.get("input") or (fl.get("known_finding") and k.get("id") == fl.get("known_finding")))), None)
             if kf is not None:
                 known_hits.append((kf, None, None))
                 continue
